@@ -629,8 +629,48 @@ def run(names, tier, seed, include_long=True, jobs=16):
     with ctx.Pool(jobs) as pool:
         res = pool.map(_run_chunk, [(names, c) for c in chunks], chunksize=1)
     fails = [f for r in res for f in r[0]]
-    return {'checks': names, 'pairs': len(pairs), 'evaluations': sum(r[1] for r in res),
+    extra = 0
+    if 'noncanonical' in names:
+        f2, extra = noncanonical_open_types(_imports())
+        fails += f2
+    return {'checks': names, 'pairs': len(pairs), 'evaluations': sum(r[1] for r in res) + extra,
             'distinct_nontrivial': sum(r[2] for r in res), 'failures': fails}
+
+
+def noncanonical_open_types(M):
+    """C15 "everywhere": the inner value of a resolved open type (ANY DEFINED BY) is decoded by the running codec, so a
+    non-canonical rewrite *inside* it is refused by DER (resp. CER) as anywhere else"""
+    be, bd, ce, cd, de, dd, error, bridge = M
+    from pyasn1.type import univ, namedtype, opentype
+    ot = opentype.OpenType('id', {1: univ.Boolean(), 2: univ.OctetString(), 3: univ.Sequence(
+        componentType=namedtype.NamedTypes(namedtype.NamedType('s', univ.SequenceOf(componentType=univ.Integer()))))})
+    spec = univ.Sequence(componentType=namedtype.NamedTypes(namedtype.NamedType('id', univ.Integer()),
+                                                            namedtype.NamedType('blob', univ.Any(), openType=ot)))
+    T0 = {'k': 'SEQUENCE', 'tags': [], 'fields': []}
+    cases = [('3006020101010101', 'BOOLEAN TRUE written 01', ('DER', 'CER')),
+             ('300a0201022405040361 6263'.replace(' ', ''), 'segmented OCTET STRING', ('DER',)),
+             ('300c0201033007308002010500 00'.replace(' ', ''), 'indefinite length inside the inner value', ('DER',)),
+             ('30060201010101ff', None, ()), ('3008020102040361 6263'.replace(' ', ''), None, ())]
+    out, n = [], 0
+    for hexs, what, refusers in cases:
+        b = bytes.fromhex(hexs)
+        for dname, dec in (('DER', dd), ('CER', cd)):
+            n += 1
+            try:
+                dec.decode(b, asn1Spec=spec, decodeOpenTypes=True)
+                accepted = True
+            except error.PyAsn1Error:
+                accepted = False
+            except Exception as ex:
+                out.append(fail('noncanonical', T0, None, 'open type inner value: non-library error %s' % type(ex).__name__,
+                                enc=b, decoder=dname))
+                continue
+            if what is None and dname == 'DER' and not accepted:
+                out.append(fail('noncanonical', T0, None, 'canonical inner value of an open type refused', enc=b, decoder=dname))
+            if what is not None and dname in refusers and accepted:
+                out.append(fail('noncanonical', T0, None, 'non-canonical encoding accepted inside a resolved open type: %s' % what,
+                                enc=b, decoder=dname, rewrite='open-type-inner'))
+    return out, n
 
 
 def main():
